@@ -22,11 +22,13 @@ ENTRY = '@harness_prec'
 NSHAPES = 14
 SHAPE_NAMES = ['a', '-a', '!a', '~a', '+a', '^a', '^mut a', 'a(b)', 'a[0]', 'a.b', 'a.try', 'a^', 'T.(a)', '-a.b', '?', '?']
 SHAPE_NAMES += [pre + post for pre in '-!~+' for post in ['a(b)', 'a[0]', 'a.b', 'a.try', 'a^', 'T.(a)', 'T.{}', 'T.[a]']]
+SHAPE_NAMES += ['(a)', '((a))', '(a + b)', '((a + b))']
 OPS = ['||', '&&', '<', '<=', '>', '>=', '==', '!=', '+', '-', '|', '~', '*', '/', '%', '&', '<<', '>>']
 
 
 def build(part):
-    nops, shapes = part
+    nops, shapes = part[:2]
+    cond = 0x100 if len(part) > 2 and part[2] else 0
     st = State()
     ops = [z3.BitVec('op%d' % i, 8) for i in range(nops)]
     for i, o in enumerate(ops):
@@ -35,11 +37,11 @@ def build(part):
     sb = BUF + 64
     for i, s in enumerate(shapes):
         st.mem[sb + i] = s
-    return st, [BUF, nops, sb], {'ops': ops, 'shapes': list(shapes)}
+    return st, [BUF, nops | cond, sb], {'ops': ops, 'shapes': list(shapes), 'cond': cond}
 
 
-def native_args(ops, shapes):
-    return [('bytes', list(ops)), ('int', len(ops), 'c_size_t'), ('bytes', list(shapes))]
+def native_args(ops, shapes, cond=0):
+    return [('bytes', list(ops) or [0]), ('int', len(ops) | cond, 'c_size_t'), ('bytes', list(shapes))]
 
 
 def concrete(case):
@@ -82,14 +84,30 @@ def run(chk, tier, seed):
             shapes = [0, 0, 0]; shapes[pos] = sh
             parts.append((2, tuple(shapes)))
         parts.append((1, (sh, sh)))
-    parts = sorted(set(parts))
+    # redundant parentheses (shapes 48..51), as a whole expression and as operands, also as the condition of an `if`
+    # (where the token after the closing parenthesis is `{`)
+    for cond in (False, True):
+        for sh in range(48, 52):
+            parts.append((0, (sh,), cond))
+            for pos in range(2):
+                shapes = [0, 0]; shapes[pos] = sh
+                parts.append((1, tuple(shapes), cond))
+            if tier == 'thorough':
+                for pos in range(3):
+                    shapes = [0, 0, 0]; shapes[pos] = sh
+                    parts.append((2, tuple(shapes), cond))
+        for sh in (0, 1, 7, 12):
+            parts.append((1, (sh, 0), True))
+    parts = sorted(set(parts), key=lambda p: (p[0], p[1], len(p) > 2 and p[2]))
     job = Job(ENTRY, build, judge_zero)
     tot = explore(chk, mod, job, parts, nproc=16)
     for v in tot['violations'][:10]:
         ops = v['inputs']['ops']; shapes = v['inputs']['shapes']
-        args = native_args(ops, shapes)
+        args = native_args(ops, shapes, v['inputs'].get('cond', 0))
         r = llcheck.native_call(so, ENTRY, args, ret='c_uint32')
         expr = ' '.join(SHAPE_NAMES[shapes[0]] if i == 0 else OPS[ops[i - 1]] + ' ' + SHAPE_NAMES[shapes[i]] for i in range(len(shapes)))
+        if v['inputs'].get('cond'):
+            expr = 'if ' + expr + ' { a } else { a }'
         what = 'x :: %s ; — %s (16 = syntax error, 17/18 = BinaryExpr spans differ from the documented table); native call: %r' % (expr, v['what'], r)
         if r[0] == 'ret' and r[1] == 0:
             chk.inconclusive_note('model did not reproduce natively: ' + what); continue
@@ -99,7 +117,7 @@ def run(chk, tier, seed):
     chk.cov['exhaustive'] = True
     chk.cov['explanation'] = 'states = finished paths of harness_prec; the operator choices are symbolic, so one exploration covers all 18^k operator combinations of a skeleton'
     chk.bounds.update({'skeletons': len(parts), 'operators_per_expression': '1..3 (4 in thorough)', 'operator_choices': 'all 18 binary operators at every position (symbolic)',
-                       'decorations': SHAPE_NAMES, 'outside_claim': ['printer round-trip (no printer in the repository)', 'expression depth > 4 operators', 'parenthesised sub-expressions']})
+                       'decorations': SHAPE_NAMES, 'outside_claim': ['printer round-trip (no printer in the repository)', 'expression depth > 4 operators', 'parenthesised sub-expressions other than the four redundant-parenthesis operand shapes']})
     chk.assumptions.extend(['the level table in llharness/src/lib.rs (BINOPS) is transcribed from the property statement', 'tokens are built directly (every one is lexer-producible)',
                             'rustc 1.88 LLVM IR at opt-level 1; llsym validated against native runs'])
 
